@@ -260,7 +260,13 @@ impl NameCompressor {
             }
             entry = &entry[..entry.len() - first.as_wire().len()];
 
-            for label in name_labels.clone() {
+            // NOTE: 'name_labels' must only advance past the labels that
+            // matched, since what remains of it is returned below.
+            loop {
+                let mut next_labels = name_labels.clone();
+                let Some(label) = next_labels.next() else {
+                    break;
+                };
                 if entry.len() < label.as_wire().len()
                     || !entry[entry.len() - label.as_wire().len()..]
                         .eq_ignore_ascii_case(label.as_wire())
@@ -268,6 +274,7 @@ impl NameCompressor {
                     break;
                 }
                 entry = &entry[..entry.len() - label.as_wire().len()];
+                name_labels = next_labels;
             }
 
             // Suffixes from 'entry' that were also in 'name' have been
